@@ -34,6 +34,7 @@ func cmdVC(args []string) {
 	timeout := fs.Int("t", 10, "solver timeout (s)")
 	dump := fs.String("dump", "", "dump SMT of obligation whose name contains this")
 	repo := fs.String("repo", "/repo", "repository root")
+	only := fs.String("only", "", "discharge only obligations whose name contains this (development)")
 	fs.Parse(args)
 	repoRoot = *repo
 	contracts, err := loadContracts()
@@ -79,6 +80,15 @@ func cmdVC(args []string) {
 			}
 			all = append(all, g.obls...)
 		}
+	}
+	if *only != "" {
+		var sel []*Oblig
+		for _, o := range all {
+			if strings.Contains(o.Name, *only) {
+				sel = append(sel, o)
+			}
+		}
+		all = sel
 	}
 	t1 := time.Now()
 	discharge(all, "/tmp/govc-work", *timeout, *timeout, false, 8)
